@@ -6,7 +6,7 @@ from .name import AssignedName, ImportedName
 from .util import (np, get_expr_end, get_indexes_for_target, visitor, get_any_marked_name)
 
 if PY2:
-    UNSUPPORTED_ASSIGMENTS = Subscript
+    UNSUPPORTED_ASSIGMENTS = Subscript,
 else:
     from ast import Starred
     UNSUPPORTED_ASSIGMENTS = Subscript, Starred
@@ -118,6 +118,8 @@ class extract_visitor(NodeVisitor):
 
         body_start = self.make_flow('for', [cur])
         for nn, _idx in get_indexes_for_target(node.target, [], []):
+            if isinstance(nn, (Attribute,) + UNSUPPORTED_ASSIGMENTS):
+                continue
             name = nn  # type: ast.Name # type: ignore[assignment]
             body_start.add_name(AssignedName(name.id, np(node.body[0]), np(name), node.iter))
         body = self.visit_in_flow(node.body, body_start)
@@ -278,6 +280,8 @@ class extract_visitor(NodeVisitor):
             pp = p
             p = self.make_flow('comp', [p])
             for nn, _idx in get_indexes_for_target(g.target, [], []):
+                if isinstance(nn, (Attribute,) + UNSUPPORTED_ASSIGMENTS):
+                    continue
                 name = nn  # type: ast.Name # type: ignore[assignment]
                 name.flow = pp  # type: ignore[attr-defined]
                 # a comprehension variable does not hide an outer name in the rest of the scope
@@ -310,6 +314,8 @@ class extract_visitor(NodeVisitor):
         for it in items:
             if it.optional_vars:
                 for nn, _idx in get_indexes_for_target(it.optional_vars, [], []):
+                    if isinstance(nn, (Attribute,) + UNSUPPORTED_ASSIGMENTS):
+                        continue
                     name = nn  # type: ast.Name # type: ignore[assignment]
                     # bound where the target stands: later items of the same statement see it
                     self.flow.add_name(AssignedName(name.id, np(it.optional_vars), np(name), node))
